@@ -25,7 +25,7 @@ from vf import sched
 from vf import universe as U
 from vf import wire
 from vf.checks.c04 import to_et
-from vf.core import vacuous, HarnessError, Tally, in_fork
+from vf.core import vacuous, HarnessError, Tally, in_fork, private_xdg
 
 LEVEL = "model_checking"
 UTC = datetime.timezone.utc
@@ -74,6 +74,7 @@ _INPUTS = {}
 def inputs():
     if _INPUTS:
         return _INPUTS
+    private_xdg()
     st, iv = _stmt_term(), _inv_term()
     _INPUTS["stmt_term"] = st
     _INPUTS["inv_term"] = iv
@@ -151,6 +152,46 @@ def _serialize(termkey, version, pretty, close):
     tree = inst.to_etree()
     after = model_repr(inst)
     return hashlib.sha1(out).hexdigest() + ":" + hashlib.sha1(ET.tostring(tree)).hexdigest(), before == after, "model instance given to serialize()/to_etree()"
+
+
+_SHARED = []
+
+
+def shared_client():
+    """one client object used by every client_* operation of the process (as `ofxget scan` shares one client among its
+    worker threads); the clock and the id source are pinned so that a request depends on nothing but the call"""
+    if not _SHARED:
+        from ofxtools.Client import OFXClient
+        from ofxtools.utils import classproperty
+
+        class PinnedClient(OFXClient):
+            def dtclient(self):
+                return datetime.datetime(2024, 1, 2, 3, 4, 5, tzinfo=UTC)
+
+            @classproperty
+            @classmethod
+            def uuid(cls):
+                return "00000000-0000-4000-8000-000000000001"
+
+        _SHARED.append(PinnedClient("http://x/ofx", userid="user", org="ORG", fid="7", version=203, clientuid="CUID", bankid="123", brokerid="b.example"))
+    return _SHARED[0]
+
+
+def _client_op(which):
+    from ofxtools.Client import StmtRq
+
+    cl = shared_client()
+    before = repr(sorted((k, repr(v)) for k, v in vars(cl).items() if k != "cookiejar"))
+    if which == "profile-v102":
+        out = cl.request_profile(version=102, gen_newfileuid=False, dryrun=True).read()
+    elif which == "profile-v160-pretty":
+        out = cl.request_profile(version=160, prettyprint=True, close_elements=False, gen_newfileuid=False, dryrun=True).read()
+    elif which == "statement":
+        out = cl.request_statements("pw", StmtRq(acctid="1", accttype="CHECKING"), gen_newfileuid=False, dryrun=True).read()
+    else:
+        out = cl.serialize(U.build(inputs()["stmt_term"]))
+    after = repr(sorted((k, repr(v)) for k, v in vars(cl).items() if k != "cookiejar"))
+    return hashlib.sha1(out).hexdigest() + ":" + out[:120].decode("ascii", "replace"), before == after, "the client object (its configuration)"
 
 
 def _dt_convert(which):
@@ -232,10 +273,15 @@ OPS = {
     "time_unconvert_utc": lambda: _dt_unconvert("time-utc"),
     "time_unconvert_est_same_instant": lambda: _dt_unconvert("time-est"),
     "two_instances_one_class": _two_instances,
+    "client_profile_rq_v102": lambda: _client_op("profile-v102"),
+    "client_profile_rq_v160_unclosed_pretty": lambda: _client_op("profile-v160-pretty"),
+    "client_statement_rq": lambda: _client_op("statement"),
+    "client_serialize_default_form": lambda: _client_op("serialize"),
 }
 OPNAMES = list(OPS)
 SMALL = ["dt_convert_fresh_descriptor", "dt_convert_class_descriptor", "dt_unconvert_utc", "dt_unconvert_est_same_instant", "time_unconvert_utc", "time_unconvert_est_same_instant"]
 MEDIUM = ["introspect_base_classes", "from_etree_mail", "from_etree_stockinfo", "from_etree_mfinfo_vendor", "two_instances_one_class", "from_etree_seclist"]
+CLIENT = ["client_profile_rq_v102", "client_profile_rq_v160_unclosed_pretty", "client_statement_rq", "client_serialize_default_form"]
 BIG = ["parse_stmt_v1", "parse_inv_v2", "serialize_stmt_v2", "serialize_inv_v1_unclosed_pretty", "parse_profile_v1", "parse_truncated"]
 
 
@@ -463,7 +509,7 @@ def run(ctx):
         if n == 3:
             # depth 3: all triples over the operations that touch library-global state or share class-level objects, plus
             # every pair followed/preceded by each of them
-            core = SMALL + MEDIUM + ["serialize_stmt_v2", "parse_truncated", "convert_missing_required"]
+            core = SMALL + MEDIUM + ["serialize_stmt_v2", "parse_truncated", "convert_missing_required"] + CLIENT[:1] + CLIENT[3:]
             seqs += list(itertools.product(core, repeat=3))
         else:
             seqs += list(itertools.product(OPNAMES, repeat=n))
@@ -484,6 +530,9 @@ def run(ctx):
             else:
                 pairs.append(((a, b), 2, 4000, "call-first"))
                 pairs.append(((a, b), 1, 3000, "line"))
+    # one client object shared by two threads: a switch at the first visit of every function call inside ofxtools
+    for a, b in itertools.combinations(CLIENT, 2):
+        pairs.append(((a, b), 1, 1500, "call-first"))
     for a, b in itertools.combinations(BIG, 2):
         pairs.append(((a, b), 0, None, "call"))
         pairs.append(((b, a), 0, None, "call"))
